@@ -37,6 +37,8 @@ var c19Extras = []struct{ name, text string }{
 	{"try-catch-and-throw", "fn main() {\n    let r = try { throw(\"boom\"); 1 } catch e { println(e.message); 2 };\n    println(r);\n}\n"},
 	{"spawn-expression", "fn w(n: int) { println(\"w\", n); }\nfn main() { spawn w(1); println(\"m\"); }\n"},
 	{"option-values", "fn main() {\n    let a: ?int = ?3;\n    let b: ?int = none;\n    println(a.unwrap(), b.is_none(), a.unwrap_or(9), b.unwrap_or(9));\n}\n"},
+	{"match-with-only-a-default-arm", "fn pick(n: int) -> str { match n { _ => \"always\" } }\nfn main() {\n    let x = 3;\n    let v = match x { _ => x + 1 };\n    println(v, pick(1));\n    match x { _ => println(\"only default\") };\n    println(\"end\");\n}\n"},
+	{"match-without-any-arm", "fn main() {\n    let x = 3;\n    match x {};\n    match x + 1 { };\n    println(\"after\");\n}\n"},
 	{"compound-assignments", "fn main() {\n    let x = 7;\n    x += 1; x -= 2; x *= 3; x /= 2; x %= 5; x **= 2; x <<= 1; x >>= 1; x |= 8; x &= 12; x ^= 5;\n    println(x);\n}\n"},
 }
 
